@@ -66,7 +66,11 @@ func VerifH_SurfaceSyntax() {
 	rw := verifrt.Choice("rewriting", rwCount)
 	at := verifrt.Choice("at", len(lines)) // the line the rewriting applies to (or before which a line is inserted)
 	verifrt.Note("rewriting", verifRwNames[rw])
+	// the line-end convention of the rewritten document is chosen independently of the other rewriting
 	nl := "\n"
+	if verifrt.Choice("newline", 2) == 1 {
+		nl = "\r" // CRLF combined with the other rewritings adds nothing over CR: every state treats CR and LF alike or not at all
+	}
 	switch rw {
 	case rwCRLF:
 		nl = "\r\n"
@@ -90,7 +94,7 @@ func VerifH_SurfaceSyntax() {
 			case rwCommentLine:
 				text1 += "# a comment" + nl
 			case rwBlockCommentLine:
-				text1 += "### block\ncomment ###" + nl
+				text1 += "### block" + nl + "comment ###" + nl
 			case rwBlankLine:
 				text1 += "  " + nl
 			case rwIndentSpaces:
